@@ -36,6 +36,7 @@ def run(ctx):
     ctx.explain("E-FREELIST.count: the shared node count that arms the automatic gc: a failed allocation undoes its +1, an "
                 "adjusted thread-local delta is written back or published on every path.")
     n = efreelist.check_count_bookkeeping(ctx, F)
+    efreelist.check_terminal_gc(ctx, F)
     ctx.floor("E-FREELIST.count", "node-count bookkeeping obligations", n, 3)
     ctx.explain("E-EVENT.gc-order: Manager::gc sweeps every inner-node level before the terminal table (terminals "
                 "referenced only by dead inner nodes become unreferenced during the level sweep).")
